@@ -90,6 +90,7 @@ class Specs:
         self.specfns = {}       # name -> FunctionDef
         self.consts = {}        # name -> ast expr
         self.scans = []         # (FunctionDef, opts)
+        self.lemmas = []        # Contract-like records: programs over contracts with check(...) statements
         self.loops = {}         # target -> [(FunctionDef, opts)]
         self.modules = []
         h = hashlib.sha256()
@@ -129,6 +130,9 @@ class Specs:
                         for t in tgts:
                             c = Contract(t, s, kw.get('props', []), m, kw)
                             self.contracts.setdefault(t, []).append(c)
+                    elif deco.func.id == 'lemma':
+                        c = Contract('lemma:' + s.name, s, kw.get('props', []), m, kw)
+                        self.lemmas.append(c)
                     elif deco.func.id == 'scan':
                         self.scans.append((s, kw))
                     elif deco.func.id == 'loops':
